@@ -26,7 +26,7 @@ func statusConsts(p *Prog) map[string]int64 {
 	for _, n := range scope.Names() {
 		if k, ok := scope.Lookup(n).(*types.Const); ok && types.Identical(k.Type(), nm) {
 			if v, ok := constantInt(k); ok {
-				out[strings.TrimPrefix(n, "nodeStatus")] = v
+				out[strings.TrimPrefix(recordedConstName(n), "nodeStatus")] = v
 			}
 		}
 	}
